@@ -177,7 +177,7 @@ func (x *dbExec) emitBytes() {
 		var ws []string
 		calls := 0
 		for _, is := range g.iters {
-			if is.failed || len(is.moves) == 0 {
+			if len(is.moves) == 0 {
 				continue
 			}
 			n := len(is.moves)
